@@ -30,6 +30,7 @@ import (
 	"strings"
 	"sync"
 	"sync/atomic"
+	"syscall"
 	"time"
 
 	_ "github.com/mattn/go-sqlite3"
@@ -60,6 +61,12 @@ func init() {
 		}
 		return 10
 	}, func(c *core.Case, k int) { runKMount(c, "wal", k) })
+	addKMount("C13", func(tier string) int {
+		if tier == "thorough" {
+			return 96
+		}
+		return 8
+	}, runKMountC13)
 	addKMount("C07", func(tier string) int {
 		if tier == "thorough" {
 			return 96
@@ -260,6 +267,7 @@ func SQLChild() int {
 	in := bufio.NewReaderSize(os.Stdin, 1<<20)
 	out := json.NewEncoder(os.Stdout)
 	conns := map[int]*localSQL{}
+	files := map[int]*os.File{}
 	next := 0
 	for {
 		line, err := in.ReadBytes('\n')
@@ -310,6 +318,31 @@ func SQLChild() int {
 			}
 			if err != nil {
 				resp.Err = err.Error()
+			}
+		case "flock":
+			// blocking POSIX write lock on one byte (F_SETLKW), kept until funlock
+			f, err := os.OpenFile(req.Path, os.O_RDWR, 0)
+			if err == nil {
+				lk := syscall.Flock_t{Type: syscall.F_WRLCK, Whence: 0, Start: req.Size, Len: 1}
+				if err = syscall.FcntlFlock(f.Fd(), syscall.F_SETLKW, &lk); err != nil {
+					_ = f.Close()
+				} else {
+					next++
+					files[next] = f
+					resp.H = next
+				}
+			}
+			if err != nil {
+				resp.Err = err.Error()
+			}
+		case "funlock":
+			if f := files[req.H]; f != nil {
+				lk := syscall.Flock_t{Type: syscall.F_UNLCK, Whence: 0, Start: req.Size, Len: 1}
+				if err := syscall.FcntlFlock(f.Fd(), syscall.F_SETLK, &lk); err != nil {
+					resp.Err = err.Error()
+				}
+				_ = f.Close()
+				delete(files, req.H)
 			}
 		case "create":
 			f, err := os.OpenFile(req.Path, os.O_RDWR|os.O_CREATE|os.O_EXCL, 0o644)
@@ -1217,4 +1250,238 @@ func (s *sqlDB) queryStringOrExec(q string) (string, error) {
 		return v, err
 	}
 	return "", s.exec(q)
+}
+
+// runKMountC13: the halt lock end to end. An application process on a replica
+// takes the database's HALT byte on <db>-lock with a blocking POSIX lock
+// (F_SETLKW through the kernel), writes with real SQLite while it holds it, and
+// releases it. The primary must be halted meanwhile, every forwarded
+// transaction must land on the primary exactly once, in order, and both nodes
+// must read the same content afterwards; after the release the replica is
+// read-only again.
+func runKMountC13(c *core.Case, k int) {
+	if ok, why := kmountAvailable(); !ok {
+		c.Count("kmount_unavailable", 1)
+		if k == 0 {
+			c.Sample(map[string]any{"kmount": "unavailable", "why": why})
+		}
+		return
+	}
+	c.Count("kmount_cases", 1)
+	mode := []string{"delete", "wal", "truncate", "wal"}[k%4]
+	ps := []int{1024, 4096, 512}[c.Rng.IntN(3)]
+	cl, err := cluster.New(c.Dir, []cluster.NodeOpts{{Candidate: true, KernelMount: true}, {KernelMount: true}})
+	if err != nil {
+		c.Inconclusive(err.Error())
+		return
+	}
+	defer cl.Close()
+	if err := cl.Start(0); err != nil || cl.WaitPrimary(0, 10*time.Second) == nil {
+		c.Inconclusive(fmt.Sprintf("primary start: %v", err))
+		return
+	}
+	if err := cl.Start(1); err != nil || !cl.WaitConnected(1, 10*time.Second) {
+		c.Inconclusive(fmt.Sprintf("replica start: %v", err))
+		return
+	}
+	P, R := cl.Nodes[0], cl.Nodes[1]
+	var hist []string
+	detail := func(extra map[string]any) map[string]any {
+		d := map[string]any{"driver": "B (kernel mount + real SQLite)", "journal_mode": mode, "page_size": ps, "steps": hist,
+			"primary_pos": mon.PosOf(P.Node, "db").String(), "replica_pos": mon.PosOf(R.Node, "db").String()}
+		for k, v := range extra {
+			d[k] = v
+		}
+		return d
+	}
+	fail := func(fp, what string) { c.Violate("C13/kmount/"+fp, what, detail(nil)) }
+	pproc, err := startSQLProc()
+	if err != nil {
+		c.Inconclusive("SQL child: " + err.Error())
+		return
+	}
+	defer pproc.stop()
+	rproc, err := startSQLProc()
+	if err != nil {
+		c.Inconclusive("SQL child: " + err.Error())
+		return
+	}
+	defer rproc.stop()
+	pdb, rdb := filepath.Join(P.MountDir(), "db"), filepath.Join(R.MountDir(), "db")
+	w, err := pproc.open(pdb, false)
+	if err != nil {
+		fail("open", err.Error())
+		return
+	}
+	for _, q := range []string{fmt.Sprintf("PRAGMA page_size=%d", ps), "PRAGMA journal_mode=" + mode, "CREATE TABLE t0(id INTEGER PRIMARY KEY, k INTEGER, v BLOB)", "INSERT INTO t0 VALUES(1,1,randomblob(2000))"} {
+		if _, err := w.queryStringOrExec(q); err != nil {
+			fail("setup", q+": "+err.Error())
+			return
+		}
+	}
+	chain := &ltxChain{dir: filepath.Join(mon.DBDir(P.Node, "db"), "ltx")}
+	if _, prob := chain.advance(); prob != "" {
+		fail("ltx-chain", prob)
+		return
+	}
+	converge := func(ctx string) bool {
+		ok, _, timedOut := cl.WaitConverged(P, R, []string{"db"}, 8, 30*time.Second)
+		if timedOut {
+			c.Inconclusive("replica convergence watchdog (" + ctx + ")")
+			return false
+		}
+		if !ok {
+			healthViolations(c, R.Node, ctx, detail(nil))
+			healthViolations(c, P.Node, ctx, detail(nil))
+			if !c.Violated() {
+				fail("not-converged", fmt.Sprintf("%s: the replica is at %s, the primary at %s", ctx, mon.PosOf(R.Node, "db"), mon.PosOf(P.Node, "db")))
+			}
+			return false
+		}
+		return true
+	}
+	if !converge("before the halt") {
+		return
+	}
+	rounds := 2 + c.Rng.IntN(2)
+	nextID := 100
+	for round := 0; round < rounds; round++ {
+		// --- acquire through the kernel
+		lr, err := rproc.call(sqlReq{Op: "flock", Path: rdb + "-lock", Size: int64(litefs.LockTypeHalt)})
+		if err != nil {
+			fail("acquire-failed", "F_SETLKW on the HALT byte of the replica's lock file: "+err.Error())
+			return
+		}
+		hist = append(hist, "replica: HALT lock taken")
+		c.Count("grants", 1)
+		if !R.Store.DB("db").HasRemoteHaltLock() {
+			fail("acquire-without-lock", "F_SETLKW returned but the replica does not hold the remote halt lock")
+			return
+		}
+		// --- the primary is halted
+		pos0 := mon.PosOf(P.Node, "db")
+		pw, err := pproc.open(pdb, false, "_busy_timeout=300")
+		if err == nil {
+			werr := pw.exec(fmt.Sprintf("INSERT INTO t0 VALUES(%d,0,zeroblob(10))", 900000+round))
+			pw.close()
+			if werr == nil && mon.PosOf(P.Node, "db") != pos0 {
+				fail("primary-wrote-while-halted", "a local transaction committed on the primary while the replica held the halt lock")
+				return
+			}
+			c.Count("kmount_primary_halted_checked", 1)
+		}
+		// --- forwarded writes by real SQLite on the replica
+		rw, err := rproc.open(rdb, false)
+		if err != nil {
+			fail("replica-open", err.Error())
+			return
+		}
+		n := 1 + c.Rng.IntN(3)
+		for i := 0; i < n; i++ {
+			nextID++
+			q := fmt.Sprintf("INSERT INTO t0 VALUES(%d,%d,randomblob(%d))", nextID, round, 50+c.Rng.IntN(6000))
+			if i == n-1 && c.Rng.IntN(2) == 0 {
+				q = fmt.Sprintf("UPDATE t0 SET k=k+1, v=randomblob(%d)", 100+c.Rng.IntN(2000))
+			}
+			before := mon.PosOf(P.Node, "db")
+			err := rw.exec(q)
+			hist = append(hist, fmt.Sprintf("replica (holder): %s -> %v", q, err))
+			if healthViolations(c, R.Node, "forwarded write", detail(nil)) || healthViolations(c, P.Node, "forwarded write", detail(nil)) {
+				return
+			}
+			if err != nil {
+				fail("holder-write-refused", fmt.Sprintf("the halt-lock holder's transaction failed: %v", err))
+				return
+			}
+			after := mon.PosOf(P.Node, "db")
+			if after.TXID != before.TXID+1 {
+				fail("forwarded-commit-not-on-primary", fmt.Sprintf("the holder's transaction returned success but the primary moved %s -> %s", before, after))
+				return
+			}
+			if rp := mon.PosOf(R.Node, "db"); rp != after {
+				fail("holder-and-primary-differ", fmt.Sprintf("after a forwarded commit the holder is at %s, the primary at %s", rp, after))
+				return
+			}
+			if _, prob := chain.advance(); prob != "" {
+				fail("ltx-chain", "after forwarded commit: "+prob)
+				return
+			}
+			if raw := mon.RawImage(mon.DBDir(P.Node, "db")); chain.img.Diff(raw) != "" {
+				fail("primary-image", "after a forwarded commit the primary's files differ from the image rebuilt from its transaction files: "+chain.img.Diff(raw))
+				return
+			}
+			c.Count("forwarded_commits", 1)
+			if mode == "wal" {
+				c.Count("forwarded_wal", 1)
+			}
+		}
+		rw.close()
+		// --- release
+		if _, err := rproc.call(sqlReq{Op: "funlock", H: lr.H, Size: int64(litefs.LockTypeHalt)}); err != nil {
+			fail("release-failed", err.Error())
+			return
+		}
+		hist = append(hist, "replica: HALT lock released")
+		for i := 0; i < 2000 && R.Store.DB("db").HasRemoteHaltLock(); i++ {
+			time.Sleep(time.Millisecond)
+		}
+		if R.Store.DB("db").HasRemoteHaltLock() {
+			fail("replica-still-holder", "the replica still believes it holds the halt lock after releasing it")
+			return
+		}
+		// --- the former holder is read-only again, the primary writes again
+		rw2, err := rproc.open(rdb, false, "_busy_timeout=300")
+		if err == nil {
+			rb := c07Snapshot(R.Node, "db")
+			werr := rw2.exec(fmt.Sprintf("INSERT INTO t0 VALUES(%d,0,zeroblob(10))", 800000+round))
+			rw2.close()
+			if ra := c07Snapshot(R.Node, "db"); werr == nil || (ra.pos != rb.pos && ra.pos != mon.PosKey(mon.PosOf(P.Node, "db"))) {
+				fail("former-holder-published", fmt.Sprintf("after releasing the halt lock the replica's write returned %v (position %s -> %s)", werr, rb.pos, ra.pos))
+				return
+			}
+			c.Count("write_after_release_refused", 1)
+		}
+		nextID++
+		if err := w.exec(fmt.Sprintf("INSERT INTO t0 VALUES(%d,%d,randomblob(300))", nextID, round)); err != nil {
+			healthViolations(c, P.Node, "primary write after release", detail(nil))
+			if !c.Violated() {
+				fail("primary-cannot-write-after-halt", "after the halt lock was released the primary cannot commit: "+err.Error())
+			}
+			return
+		}
+		if _, prob := chain.advance(); prob != "" {
+			fail("ltx-chain", "after release: "+prob)
+			return
+		}
+		c.Count("primary_writes_after_release", 1)
+		if !converge(fmt.Sprintf("after round %d", round)) {
+			return
+		}
+		ph, err := w.contentHash()
+		if err != nil {
+			fail("read-error", err.Error())
+			return
+		}
+		rr, err := rproc.open(rdb, true)
+		if err != nil {
+			fail("replica-open", err.Error())
+			return
+		}
+		rh, err := rr.contentHash()
+		rr.close()
+		if err != nil || rh != ph {
+			fail("content-differs", fmt.Sprintf("after round %d the replica reads %s (%v), the primary %s", round, rh, err, ph))
+			return
+		}
+		want, integ, err := plainHash(c.Dir, chain.img, "c13")
+		if err != nil || integ != "ok" || want != ph {
+			fail("rebuilt-image", fmt.Sprintf("image rebuilt from the primary's transaction files: integrity %q, content %s (%v); SQLite reads %s", integ, want, err, ph))
+			return
+		}
+		c.Count("kmount_content_checks", 1)
+	}
+	c.Distinct(fmt.Sprintf("kmount/c13/%s/ps%d/rounds%d", mode, ps, rounds))
+	if k < 2 {
+		c.Sample(detail(nil))
+	}
 }
